@@ -1,0 +1,495 @@
+//go:build verif
+
+// Command verifhook is a line-oriented JSON server used only by the verification
+// machinery under /verif. It exposes the production lexer, parser, visitor, formatter and
+// generators on in-memory inputs and dumps their results (token streams, parse trees, the
+// BinaryModel with pointer-identity classes, generated file maps) so that an external
+// model can be compared against them. It is compiled only with -tags verif.
+package main
+
+import (
+	"bufio"
+	"encoding/json"
+	"fmt"
+	"os"
+	"path/filepath"
+	"reflect"
+	"runtime"
+	"runtime/debug"
+	"sort"
+	"strings"
+
+	"github.com/antlr4-go/antlr/v4"
+	gen "github.com/xinchentechnote/fin-protoc/internal/grammar"
+	"github.com/xinchentechnote/fin-protoc/internal/model"
+	"github.com/xinchentechnote/fin-protoc/internal/parser"
+)
+
+type request struct {
+	Op    string   `json:"op"`
+	Text  string   `json:"text"`
+	Langs []string `json:"langs"`
+	// AllowCyclic lets "gen" run on models whose packet reference graph has a cycle
+	// (the generators may then overflow the stack, which cannot be recovered).
+	AllowCyclic bool `json:"allow_cyclic"`
+}
+
+type obj = map[string]interface{}
+
+var tmpDir string
+
+func main() {
+	debug.SetMaxStack(256 << 20)
+	out := os.NewFile(uintptr(3), "responses")
+	if out == nil {
+		fmt.Fprintln(os.Stderr, "verifhook: fd 3 must be open for responses")
+		os.Exit(2)
+	}
+	tmpDir = os.Getenv("VERIFHOOK_TMP")
+	if tmpDir == "" {
+		tmpDir = os.TempDir()
+	}
+	// the production code prints progress on stdout; keep it away from the protocol
+	devnull, _ := os.OpenFile(os.DevNull, os.O_WRONLY, 0)
+	os.Stdout = devnull
+	os.Stderr = devnull
+	w := bufio.NewWriter(out)
+	sc := bufio.NewScanner(os.Stdin)
+	sc.Buffer(make([]byte, 1<<20), 1<<28)
+	for sc.Scan() {
+		var req request
+		var resp obj
+		if err := json.Unmarshal(sc.Bytes(), &req); err != nil {
+			resp = obj{"error": "bad request: " + err.Error()}
+		} else {
+			resp = handle(&req)
+		}
+		data, err := json.Marshal(resp)
+		if err != nil {
+			data, _ = json.Marshal(obj{"error": "marshal: " + err.Error()})
+		}
+		w.Write(data)
+		w.WriteByte('\n')
+		w.Flush()
+	}
+}
+
+func handle(req *request) (resp obj) {
+	defer func() {
+		if r := recover(); r != nil {
+			resp = obj{"panic": fmt.Sprint(r), "frames": frames()}
+		}
+	}()
+	switch req.Op {
+	case "lex":
+		return opLex(req.Text)
+	case "parse":
+		return opParse(req.Text)
+	case "visit":
+		return opVisit(req)
+	case "gen":
+		return opGen(req)
+	case "format":
+		return opFormat(req.Text)
+	case "tables":
+		return opTables()
+	}
+	return obj{"error": "unknown op " + req.Op}
+}
+
+// frames returns the function names of the panicking stack (innermost first), without
+// addresses or line numbers, restricted to this module.
+func frames() []string {
+	pcs := make([]uintptr, 64)
+	n := runtime.Callers(3, pcs)
+	fr := runtime.CallersFrames(pcs[:n])
+	var out []string
+	for {
+		f, more := fr.Next()
+		if strings.Contains(f.Function, "fin-protoc/internal") && !strings.Contains(f.Function, "verifhook") {
+			name := f.Function[strings.LastIndex(f.Function, "/")+1:]
+			out = append(out, name)
+		}
+		if !more || len(out) >= 6 {
+			break
+		}
+	}
+	return out
+}
+
+// ---------------------------------------------------------------- lex / parse
+
+func opLex(text string) obj {
+	input := antlr.NewInputStream(text)
+	lexer := gen.NewPacketDslLexer(input)
+	lexer.RemoveErrorListeners()
+	l := parser.NewSyntaxErrorListener()
+	lexer.AddErrorListener(l)
+	var toks []interface{}
+	for {
+		t := lexer.NextToken()
+		if t.GetTokenType() == antlr.TokenEOF {
+			break
+		}
+		toks = append(toks, []interface{}{t.GetTokenType(), t.GetText(), t.GetLine(), t.GetColumn(), t.GetChannel()})
+	}
+	return obj{"tokens": toks, "errors": len(l.Errors)}
+}
+
+func dumpTree(t antlr.Tree, ruleNames []string) interface{} {
+	switch n := t.(type) {
+	case antlr.ErrorNode:
+		tok := n.GetSymbol()
+		return obj{"e": tok.GetTokenType(), "x": tok.GetText()}
+	case antlr.TerminalNode:
+		tok := n.GetSymbol()
+		return obj{"t": tok.GetTokenType(), "x": tok.GetText(), "l": tok.GetLine(), "i": tok.GetTokenIndex()}
+	case antlr.RuleContext:
+		name := ruleNames[n.GetRuleIndex()]
+		alt := strings.TrimSuffix(strings.TrimPrefix(reflect.TypeOf(n).String(), "*grammar."), "Context")
+		var kids []interface{}
+		for _, c := range n.GetChildren() {
+			kids = append(kids, dumpTree(c, ruleNames))
+		}
+		if kids == nil {
+			kids = []interface{}{}
+		}
+		return obj{"r": name, "a": alt, "c": kids}
+	}
+	return obj{"unknown": fmt.Sprintf("%T", t)}
+}
+
+func opParse(text string) obj {
+	tree, stream, listener := parser.VerifParse(text)
+	var hidden []interface{}
+	for _, t := range stream.GetAllTokens() {
+		if t.GetChannel() != antlr.TokenDefaultChannel {
+			hidden = append(hidden, []interface{}{t.GetTokenIndex(), t.GetTokenType(), t.GetText(), t.GetLine()})
+		}
+	}
+	p := gen.NewPacketDslParser(nil)
+	return obj{"tree": dumpTree(tree, p.RuleNames), "errors": len(listener.Errors), "hidden": hidden, "ntokens": len(stream.GetAllTokens())}
+}
+
+func opFormat(text string) obj {
+	res, err := parser.FormatPacketDsl(text)
+	o := obj{"result": res, "ok": err == nil}
+	if err != nil {
+		o["err"] = err.Error()
+	}
+	return o
+}
+
+// ---------------------------------------------------------------- model dump
+
+type dumper struct {
+	pads   map[*model.Padding]int
+	fixeds map[*model.FixedStringFieldAttribute]int
+	pkts   map[*model.Packet]bool
+}
+
+func newDumper() *dumper {
+	return &dumper{pads: map[*model.Padding]int{}, fixeds: map[*model.FixedStringFieldAttribute]int{}, pkts: map[*model.Packet]bool{}}
+}
+
+func (d *dumper) pad(p *model.Padding) interface{} {
+	if p == nil {
+		return nil
+	}
+	id, ok := d.pads[p]
+	if !ok {
+		id = len(d.pads)
+		d.pads[p] = id
+	}
+	return obj{"id": id, "char": []byte(p.PadChar), "left": p.PadLeft}
+}
+
+func fieldName(f *model.Field) interface{} {
+	if f == nil {
+		return nil
+	}
+	return f.Name
+}
+
+func (d *dumper) attr(a model.FieldAttribute, depth int) interface{} {
+	if a == nil || (reflect.ValueOf(a).Kind() == reflect.Ptr && reflect.ValueOf(a).IsNil()) {
+		return nil
+	}
+	switch c := a.(type) {
+	case *model.BasicFieldAttribute:
+		return obj{"kind": "basic", "type": c.Type}
+	case *model.FixedStringFieldAttribute:
+		id, ok := d.fixeds[c]
+		if !ok {
+			id = len(d.fixeds)
+			d.fixeds[c] = id
+		}
+		return obj{"kind": "fixed", "id": id, "length": c.Length, "padding": d.pad(c.Padding)}
+	case *model.DynamicStringFieldAttribute:
+		return obj{"kind": "dyn"}
+	case *model.LengthFieldAttribute:
+		return obj{"kind": "len", "target": fieldName(c.TragetField), "lentype": c.LengthType}
+	case *model.LengthOfAttribute:
+		return obj{"kind": "lenof", "type": c.Type, "length_field": fieldName(c.LengthField), "offset": c.Offset}
+	case *model.CheckSumFieldAttribute:
+		return obj{"kind": "checksum", "alg": c.CheckSumType, "type": c.Type}
+	case *model.ObjectFieldAttribute:
+		o := obj{"kind": "object", "iner": c.IsIner, "pname": c.PacketName, "ref": nil, "inline": nil}
+		if c.RefPacket != nil {
+			o["ref"] = c.RefPacket.Name
+			if c.IsIner {
+				o["inline"] = d.packet(c.RefPacket, depth+1)
+			}
+		}
+		return o
+	case *model.MatchFieldAttribute:
+		var pairs []interface{}
+		for _, p := range c.MatchPairs {
+			pairs = append(pairs, obj{"key": p.Key, "value": p.Value, "line": p.Line})
+		}
+		if pairs == nil {
+			pairs = []interface{}{}
+		}
+		o := obj{"kind": "match", "key": fieldName(c.MatchKeyField), "key_attr": nil, "pairs": pairs}
+		if c.MatchKeyField != nil && depth < 64 {
+			o["key_attr"] = d.attr(c.MatchKeyField.Attr, depth+1)
+			o["key_repeat"] = c.MatchKeyField.IsRepeat
+		}
+		return o
+	}
+	return obj{"kind": fmt.Sprintf("%T", a)}
+}
+
+func (d *dumper) field(f *model.Field, depth int) interface{} {
+	if f == nil {
+		return nil
+	}
+	var lenAttr interface{}
+	switch c := f.LenAttr.(type) {
+	case nil:
+	case *model.LengthFieldAttribute:
+		lenAttr = obj{"kind": "len", "target": fieldName(c.TragetField), "lentype": c.LengthType}
+	case *model.LengthOfAttribute:
+		lenAttr = obj{"kind": "lenof", "type": c.Type, "length_field": fieldName(c.LengthField)}
+	default:
+		lenAttr = obj{"kind": fmt.Sprintf("%T", c)}
+	}
+	return obj{"name": f.Name, "attr": d.attr(f.Attr, depth), "len_attr": lenAttr, "repeat": f.IsRepeat,
+		"doc": f.Doc, "tag": f.Tag, "line": f.Line, "col": f.Column}
+}
+
+func (d *dumper) packet(p *model.Packet, depth int) interface{} {
+	if p == nil {
+		return nil
+	}
+	if depth > 64 {
+		return obj{"name": p.Name, "too_deep": true}
+	}
+	fields := []interface{}{}
+	for _, f := range p.Fields {
+		fields = append(fields, d.field(f, depth))
+	}
+	mf := obj{}
+	for k, pairs := range p.MatchFields {
+		var ps []interface{}
+		for _, pr := range pairs {
+			ps = append(ps, obj{"key": pr.Key, "value": pr.Value, "line": pr.Line})
+		}
+		mf[k] = ps
+	}
+	var fmKeys []string
+	for k := range p.FieldMap {
+		fmKeys = append(fmKeys, k)
+	}
+	sort.Strings(fmKeys)
+	return obj{"name": p.Name, "is_root": p.IsRoot, "length_field": fieldName(p.LengthField), "fields": fields,
+		"match_fields": mf, "field_map_keys": fmKeys, "line": p.Line, "col": p.Column}
+}
+
+func dumpModel(m *model.BinaryModel) obj {
+	d := newDumper()
+	o := obj{}
+	var metas []interface{}
+	var names []string
+	for k := range m.MetaDataMap {
+		names = append(names, k)
+	}
+	sort.Strings(names)
+	// packets first so that identity classes are numbered in declaration order
+	pkts := []interface{}{}
+	for _, p := range m.Packets {
+		pkts = append(pkts, d.packet(p, 0))
+	}
+	for _, k := range names {
+		md := m.MetaDataMap[k]
+		metas = append(metas, obj{"name": md.Name, "attr": d.attr(md.Attr, 0), "desc": md.Description, "line": md.Line})
+	}
+	if metas == nil {
+		metas = []interface{}{}
+	}
+	o["metas"] = metas
+	o["options"] = m.Options
+	if m.Config != nil {
+		c := m.Config
+		o["config"] = obj{"list": c.ListLenPrefixLenType, "str": c.StringLenPrefixLenType, "java_package": c.JavaPackage,
+			"go_package": c.GoPackage, "go_module": c.GoModule, "le": c.LittleEndian, "padding": d.pad(c.Padding)}
+	} else {
+		o["config"] = nil
+	}
+	o["packets"] = pkts
+	var keys []string
+	for k := range m.PacketsMap {
+		keys = append(keys, k)
+	}
+	sort.Strings(keys)
+	o["packets_map_keys"] = keys
+	if m.RootPacket != nil {
+		o["root"] = m.RootPacket.Name
+	} else {
+		o["root"] = nil
+	}
+	errs := []interface{}{}
+	for _, e := range m.SyntaxErrors {
+		errs = append(errs, obj{"line": e.Line, "col": e.Column, "msg": e.Msg})
+	}
+	o["errors"] = errs
+	return o
+}
+
+// ---------------------------------------------------------------- visit / gen
+
+func parseFileFromText(text string) (interface{}, error) {
+	f, err := os.CreateTemp(tmpDir, "hook-*.dsl")
+	if err != nil {
+		return nil, err
+	}
+	name := f.Name()
+	defer os.Remove(name)
+	if _, err := f.WriteString(text); err != nil {
+		return nil, err
+	}
+	f.Close()
+	return parser.ParseFile(filepath.Clean(name))
+}
+
+func opVisit(req *request) obj {
+	res, err := parseFileFromText(req.Text)
+	if err != nil {
+		return obj{"syntax_error": true, "err": err.Error()}
+	}
+	m := res.(*model.BinaryModel)
+	return obj{"syntax_error": false, "model": dumpModel(m)}
+}
+
+// hasCycle reports whether the RefPacket graph reachable from the model has a cycle.
+func hasCycle(m *model.BinaryModel) bool {
+	state := map[*model.Packet]int{}
+	var visit func(p *model.Packet) bool
+	visit = func(p *model.Packet) bool {
+		if p == nil {
+			return false
+		}
+		switch state[p] {
+		case 1:
+			return true
+		case 2:
+			return false
+		}
+		state[p] = 1
+		for _, f := range p.Fields {
+			switch c := f.Attr.(type) {
+			case *model.ObjectFieldAttribute:
+				if visit(c.RefPacket) {
+					return true
+				}
+			case *model.MatchFieldAttribute:
+				for _, pr := range c.MatchPairs {
+					if visit(m.PacketsMap[pr.Value]) {
+						return true
+					}
+				}
+			}
+		}
+		state[p] = 2
+		return false
+	}
+	for _, p := range m.Packets {
+		if visit(p) {
+			return true
+		}
+	}
+	return false
+}
+
+func runGen(lang string, m *model.BinaryModel) (res obj) {
+	defer func() {
+		if r := recover(); r != nil {
+			res = obj{"lang": lang, "panic": fmt.Sprint(r), "frames": frames()}
+		}
+	}()
+	var files map[string][]byte
+	var err error
+	switch lang {
+	case "lua":
+		files, err = parser.NewLuaWspGenerator(m).Generate(m)
+	case "rust":
+		files, err = parser.NewRustGenerator(m).Generate(m)
+	case "go":
+		files, err = parser.NewGoGenerator(m).Generate(m)
+	case "java":
+		files, err = parser.NewJavaGenerator(m).Generate(m)
+	case "python":
+		files, err = parser.NewPythonGenerator(m).Generate(m)
+	case "cpp":
+		files, err = parser.NewCppGenerator(m).Generate(m)
+	default:
+		return obj{"lang": lang, "error": "unknown language"}
+	}
+	if err != nil {
+		return obj{"lang": lang, "error": err.Error()}
+	}
+	out := obj{}
+	for k, v := range files {
+		out[k] = string(v)
+	}
+	return obj{"lang": lang, "files": out}
+}
+
+func opGen(req *request) obj {
+	res, err := parseFileFromText(req.Text)
+	if err != nil {
+		return obj{"syntax_error": true, "err": err.Error()}
+	}
+	m := res.(*model.BinaryModel)
+	before := dumpModel(m)
+	if len(m.SyntaxErrors) > 0 {
+		return obj{"syntax_error": false, "rejected": true, "model": before}
+	}
+	if hasCycle(m) && !req.AllowCyclic {
+		return obj{"syntax_error": false, "rejected": false, "cyclic": true, "model": before}
+	}
+	var steps []interface{}
+	for _, lang := range req.Langs {
+		r := runGen(lang, m)
+		after := dumpModel(m)
+		r["model_unchanged"] = reflect.DeepEqual(jsonNorm(before), jsonNorm(after))
+		if !r["model_unchanged"].(bool) {
+			r["model_after"] = after
+		}
+		steps = append(steps, r)
+	}
+	return obj{"syntax_error": false, "rejected": false, "model": before, "steps": steps}
+}
+
+func jsonNorm(v interface{}) interface{} {
+	data, _ := json.Marshal(v)
+	var out interface{}
+	json.Unmarshal(data, &out)
+	return out
+}
+
+// ---------------------------------------------------------------- tables
+
+func opTables() obj {
+	return obj{"types": parser.VerifTypeTables(), "options": model.VerifOptions()}
+}
